@@ -349,3 +349,6 @@ package expr
 //@   ensures haskey(res.ExternalConstants, "context") && res.ExternalConstants["context"] == box(input)
 //@   ensures haskey(res.ExternalConstants, "ucum") && res.ExternalConstants["ucum"] == box(system.String("http://unitsofmeasure.org"))
 //@   ensures forall s string :: s != "context" && s != "ucum" ==> !haskey(res.ExternalConstants, s)
+// C04: the context's instant is in UTC (the process time zone does not leak into it)
+//@   ensures tOff(res.Now) == 0
+//@   fresh res
